@@ -135,4 +135,15 @@ CHECKS = {
         "note": "time bounds are measured, not proved; the model's atomic actions are the critical sections and channel operations of the real code",
         "technique": "Lean 4 proof (invariant by induction over action sequences, progress after loss) + regenerated tie lemmas + scripted fault-injection correspondence and concurrent storms",
     },
+    "C06": {
+        "text": "Lean 4 invariant over all sequences of connections, frames (any type, ids, payload bytes) and mailbox steps, "
+                "for every authenticator: a connection is marked authenticated only after an authenticate request of its "
+                "own whose payload parses (ReadCapabilityMap + NewValue model) to string-or-absent credentials the "
+                "authenticator accepts; a frame reaches a service other than 0 only on an authenticated connection; an "
+                "unauthenticated frame for another service is refused and the connection closed; only auth_user/auth_token "
+                "count (forged state, wrong types, garbage never authenticate); other connections are untouched; tied by "
+                "regenerated firewall / handle / router / service-0 flows and constants, and by exact + burst runs on a real server",
+        "note": "the unsynchronised access to the capability map by two goroutines is modelled as atomic (see assumptions)",
+        "technique": "Lean 4 proof (history invariant by induction over action sequences) + regenerated tie lemmas + exact and burst correspondence runs",
+    },
 }
